@@ -30,6 +30,8 @@ using S0 = VF_SCALAR;
 #define VF_STR2(x) #x
 #define VF_STR(x) VF_STR2(x)
 static const char* SCALAR_NAME = VF_STR(VF_SCALAR);
+// the float / long double instantiations (thorough tier only) run a narrower, always-completed set of families
+static const bool NARROW = !std::is_same<S0, double>::value;
 
 template <typename Scalar, class OP>
 static uint64_t probe_op(const OP& op, long n)
@@ -375,7 +377,7 @@ int main(int argc, char** argv)
     {
         // all permutation matrices 3 <= n <= 6, enumerated by lexicographic permutations
         std::vector<std::vector<int>> perms;
-        for (int n = 3; n <= (q ? 5 : 6); n++)
+        for (int n = 3; n <= ((q || NARROW) ? 5 : 6); n++)
         {
             std::vector<int> p(n);
             for (int i = 0; i < n; i++) p[i] = i;
@@ -426,10 +428,10 @@ int main(int argc, char** argv)
     if (!q) { PLAN.light = true; PLAN.depth = std::min(PLAN.depth, 3); }
     R.run("gint4", gint_count(4, 2), [&](uint64_t idx, Local& L) {
         if (asan_skip(idx)) { L.count("skipped_asan_sampling"); return; }
-        if (q && idx % 256 != 5) { L.count("skipped_quick"); return; }
+        if ((q || NARROW) && idx % 256 != 5) { L.count("skipped_quick"); return; }
         run_matrix(gint_get(4, D01(), idx), "gint4:" + num(idx), idx, K_DENSE | (idx % (q ? 512 : 32) == 5 ? K_REAL | K_CPLX : 0), L, "gint4#" + num(idx));
     });
-    if (!q)
+    if (!q && !NARROW)
         R.run("tri4", ipow(3, 10), [&](uint64_t idx, Local& L) {
         if (asan_skip(idx)) { L.count("skipped_asan_sampling"); return; }
             MatL A = MatL::Zero(4, 4);
